@@ -158,9 +158,9 @@ fn expectation(case: &C05Case, bytes: &[u8]) -> Expect {
             match pos {
                 Some(p) => Some(p),
                 None => {
-                    if query == "se" {
-                        return Expect::Unspecified("superfluous unknown argument for SE");
-                    }
+                    // the property lists "unknown query argument" among the input errors without
+                    // exempting the SE problems (a VALID superfluous -a is tolerated by the tools and
+                    // is neither missing nor unknown)
                     return Expect::Error("unknown query argument");
                 }
             }
